@@ -6,6 +6,7 @@ mod c01;
 mod c07;
 mod c08;
 mod fref;
+mod history;
 mod c09;
 mod c10;
 mod c11;
